@@ -286,7 +286,8 @@ class TabularSACPolicy(AbstractSACPolicy):
         s = _obs_state(observation)
         d = SquashedNormal(self.loc[s][None], jnp.exp(self.log_std[s])[None],
                            high=jnp.array([self.scale_out]), low=jnp.array([-self.scale_out]))
-        return CountState(state.count + 1), d
+        # SAC's training code evaluates the policy with state=None (stateless use)
+        return (None if state is None else CountState(state.count + 1)), d
 
     def __call__(self, state, observation, *, key=None, action_mask=None):
         st, d = self.action_distribution(state, observation)
